@@ -102,4 +102,8 @@ def norm(v):
         return {"t": t, "l": [norm(x) for x in seq(v["l"])]}
     if t == "dict":
         return {"t": "dict", "kv": [[norm(k), norm(x)] for k, x in seq(v["kv"])]}
+    if t in ("enc", "digest"):
+        out = dict(v)
+        out["pt"] = norm(v["pt"])
+        return out
     return dict(v)
